@@ -64,11 +64,13 @@ def compare(script, ro=None, cache0=None, flags=None, limits=DEFAULT_LIMITS, con
     """single script through run_script. Returns Result(verdict in agree|unspec|viol)"""
     if now is None:
         now = int(env.Clock.now)
-    impl = run_impl(script, ro, cache0, flags, limits, contracts)
+    # reference first: it is bounded by its own step horizon, and where it leaves the behaviour open (Unspec) there is
+    # nothing to compare - the implementation is not run (some such programs are legitimately exponential: binary
+    # recursion under TRY handlers is bounded only by phi^callstack_limit steps)
     ref, e = run_ref([script], ro, cache0, flags, limits, contracts, now)
-    refs = [ref]
-    if getattr(e, 'loop_ret_seen', False) or ref[0] == 'unspec':
-        pass
+    if ref[0] == 'unspec':
+        return Result('unspec', why=ref[1], impl=(None, None, None), ref=ref)
+    impl = run_impl(script, ro, cache0, flags, limits, contracts)
     res = judge(impl, ref)
     if res.verdict == 'viol' and e.loop_ret_seen:
         ref2, _ = run_ref([script], ro, cache0, flags, limits, contracts, now, loop_return='propagate')
